@@ -36,8 +36,15 @@ pub fn install_panic_hook() {
 pub fn take_panic() -> String {
     LAST_PANIC.with(|p| p.borrow_mut().take()).unwrap_or_else(|| "<panic without message>".into())
 }
-/// Run `f`, turning an unwind into Err(message @ location).
+/// Run `f`, turning an unwind into Err(message @ location). A panic that says "the exact scalar does not model this"
+/// is not a property of /repo: it is re-raised so that the runner reports a harness error (exit 2), never a violation.
 pub fn guarded<R>(f: impl FnOnce() -> R) -> Result<R, String> {
+    match guarded_raw(f) {
+        Err(m) if m.contains(q::Q_UNIMPL_MARKER) || m.contains("stale Q handle") => panic!("{m}"),
+        other => other,
+    }
+}
+fn guarded_raw<R>(f: impl FnOnce() -> R) -> Result<R, String> {
     match catch_unwind(AssertUnwindSafe(f)) {
         Ok(r) => Ok(r),
         Err(_) => Err(take_panic()),
@@ -173,6 +180,10 @@ fn case_hash(c: &Case) -> u64 {
     s.hash(&mut h);
     h.finish()
 }
+/// full JSON of a case (fuzz reports)
+pub fn case_json(c: &Case) -> String {
+    serde_json::to_string(c).unwrap_or_default()
+}
 /// JSON of a case with long streams abbreviated (samples in evidence).
 pub fn case_sample(c: &Case) -> serde_json::Value {
     fn rats(v: &[Rat]) -> serde_json::Value {
@@ -221,7 +232,7 @@ enum Work {
 /// except the exact scalar's "not modelled" marker which is a harness error.
 fn eval(clause: &Clause, case: &Case) -> Result<Verdict, String> {
     q::arena_reset();
-    match guarded(|| (clause.check)(case)) {
+    match guarded_raw(|| (clause.check)(case)) {
         Ok(v) => Ok(v),
         Err(msg) => {
             if msg.contains(q::Q_UNIMPL_MARKER) || msg.contains("stale Q handle") {
@@ -289,11 +300,15 @@ fn absorb(res: &mut ClauseResult, clause: &Clause, kf: &KnownFindings, case: &Ca
     }
 }
 
-fn run_work(clauses: &[Clause], enums: &[Option<Vec<Case>>], w: &Work, tier: Tier, seed: u64, kf: &KnownFindings) -> ShardOut {
+fn run_work(clauses: &[Clause], enums: &[Option<Vec<Case>>], failed: &[std::sync::atomic::AtomicBool], w: &Work, tier: Tier, seed: u64, kf: &KnownFindings) -> ShardOut {
     match *w {
         Work::Gen { clause: ci, shard, cases } => {
             let clause = &clauses[ci];
             let mut res = ClauseResult { id: clause.id.clone(), ..Default::default() };
+            if failed[ci].load(Ordering::SeqCst) {
+                // another shard of this clause has already found an unlisted failure: one shrunk counterexample per clause is enough
+                return ShardOut { clause: ci, res };
+            }
             let Source::Generated { strategy, .. } = &clause.source else { unreachable!() };
             let strat = strategy(tier);
             let s = fnv(&[&seed.to_le_bytes(), clause.id.as_bytes(), &shard.to_le_bytes()]);
@@ -302,7 +317,7 @@ fn run_work(clauses: &[Clause], enums: &[Option<Vec<Case>>], w: &Work, tier: Tie
             cfg.failure_persistence = None;
             cfg.rng_seed = RngSeed::Fixed(s);
             cfg.max_shrink_iters = 20_000;
-            cfg.max_shrink_time = tier.pick(120_000, 600_000);
+            cfg.max_shrink_time = tier.pick(45_000, 300_000);
             cfg.max_global_rejects = 1 << 20;
             cfg.max_local_rejects = 1 << 20;
             cfg.verbose = 0;
@@ -310,11 +325,15 @@ fn run_work(clauses: &[Clause], enums: &[Option<Vec<Case>>], w: &Work, tier: Tie
             let counting = std::cell::Cell::new(true);
             let res_cell = RefCell::new(&mut res);
             let out = runner.run(&strat, |case| {
+                if counting.get() && failed[ci].load(Ordering::SeqCst) {
+                    return Ok(()); // a sibling shard is already shrinking a failure of this clause
+                }
                 let v = eval(clause, &case);
                 let mut r = res_cell.borrow_mut();
                 match absorb(&mut r, clause, kf, &case, v, counting.get()) {
                     Ok(()) => Ok(()),
                     Err((sig, msg)) => {
+                        failed[ci].store(true, Ordering::SeqCst);
                         counting.set(false); // shrinking re-executions are not counted
                         Err(TestCaseError::fail(format!("{sig} :: {msg}")))
                     }
@@ -419,7 +438,7 @@ pub fn run_clauses(clauses: &[Clause], tier: Tier, seed: u64, kf: &KnownFindings
         }
         match &c.source {
             Source::Generated { quick, thorough, .. } => {
-                let total = tier.pick(*quick, *thorough);
+                let total = tier.pick(quick.saturating_mul(crate::props::quick_scale(c.property)).min(*thorough), *thorough);
                 let mut done = 0;
                 let mut shard = 0;
                 while done < total {
@@ -443,6 +462,7 @@ pub fn run_clauses(clauses: &[Clause], tier: Tier, seed: u64, kf: &KnownFindings
         }
     }
     let next = AtomicUsize::new(0);
+    let failed: Vec<std::sync::atomic::AtomicBool> = clauses.iter().map(|_| std::sync::atomic::AtomicBool::new(false)).collect();
     let outs: Mutex<Vec<ShardOut>> = Mutex::new(vec![]);
     std::thread::scope(|sc| {
         for _ in 0..threads.max(1) {
@@ -451,7 +471,7 @@ pub fn run_clauses(clauses: &[Clause], tier: Tier, seed: u64, kf: &KnownFindings
                 if k >= work.len() {
                     break;
                 }
-                let o = run_work(clauses, &enums, &work[k], tier, seed, kf);
+                let o = run_work(clauses, &enums, &failed, &work[k], tier, seed, kf);
                 outs.lock().unwrap().push(o);
             });
         }
@@ -653,6 +673,7 @@ pub fn run_property(property: &'static str, clauses: Vec<Clause>, opts: &Opts) -
             "known_findings_reported": known_lines,
             "generator_starved_clauses": starved,
             "harness_errors": harness_errors,
+            "fuzz_campaign": std::env::var("VERIF_FUZZ_NOTE").ok(),
         },
         "assumptions": crate::props::property_assumptions(property),
         "wall_s": t0.elapsed().as_secs_f64(),
